@@ -24,10 +24,10 @@ StMatch == /\ now' = E.now
            /\ store'.none = E.rst.none
            /\ (~E.rst.none => Norm(E.rst) \in RestoreSet(store', now'))
 TInit == Init /\ l = 1 /\ TLCSet(7, 0)
-TReset == /\ Cur("Reset") /\ E.sess = SessT /\ E.reb = RebT /\ Range(E.tps) = AllTP
+TReset == /\ Cur("Reset") /\ E.reb = RebT /\ Range(E.tps) = AllTP
           /\ grp' = NoGrp /\ store' = NoGrp /\ now' = 0 /\ offs' = [tp \in AllTP |-> -1]
-          /\ alive' = [m \in Members |-> -1] /\ gstart' = 0 /\ last' = [ev |-> "Init"] /\ obs' = [ev |-> "Init"] /\ hist' = <<>>
-TJoin == /\ Cur("Join") /\ Join(E.c, Range(E.sub))
+          /\ alive' = [m \in Members |-> -1] /\ gstart' = 0 /\ fgen' = -1 /\ pend' = NoPend /\ last' = [ev |-> "Init"] /\ obs' = [ev |-> "Init"] /\ hist' = <<>>
+TJoin == /\ Cur("Join") /\ Join(E.c, Range(E.sub), E.sess)
          /\ last'.code = E.code /\ last'.rgen = E.rgen /\ last'.leader = E.leader /\ last'.list = Range(E.list) /\ StMatch
 TSync == /\ Cur("Sync") /\ \E d \in {0, -1} : Sync(E.c, d)
          /\ last'.gen = E.gen /\ last'.code = E.code /\ last'.asg = Range(E.asg) /\ StMatch
